@@ -9,7 +9,7 @@
    blocks. *)
 From Coq Require Import List Arith Bool.
 Import ListNotations.
-From PySM Require Export Impl.Conc Base.PyVal.
+From PySM Require Export Impl.Conc Impl.ConcFail Base.PyVal.
 
 Definition ev_eqb (a b : event) : bool := Nat.eqb (fst a) (fst b) && Nat.eqb (snd a) (snd b).
 
@@ -20,19 +20,39 @@ Definition evt_eqb (a b : event * nat) : bool := ev_eqb (fst a) (fst b) && Nat.e
 
 Definition plan_of (l : list nat) : nat -> nat := fun t => nth t l 0.
 
-Definition case := (bool * list nat * list nat * list (event * nat) * list event * list bool)%type.
+(* mode 0 = threads (Line), 1 = asyncio (Await), 2 = threads, the callbacks of event (0, 0) fail (ConcFail, the
+   code after fix 894918f: the drainer looks at the queue once more after releasing the lock on that path) *)
+Definition case := (nat * list nat * list nat * list (event * nat) * list event * list bool)%type.
 
-Definition verdict (c : case) : nat :=
-  let '(line, plan, sched, popped, leftover, returned) := c in
-  let g := if line then Line else Await in
-  let w := run g sched (init (plan_of plan)) in
-  let fin := map (finished w) (seq 0 (length plan)) in
-  if list_eqb evt_eqb (begun_by (w_log w)) popped
-     && list_eqb ev_eqb (w_queue w) leftover
-     && list_eqb Bool.eqb fin returned
-     && bracketed (w_log w)
+Definition ffinishedb (w : fworld) (t : nat) : bool :=
+  match f_pc (fw_threads w t), f_todo (fw_threads w t) with FIdle, [] => true | _, _ => false end.
+
+Definition agree_then (ok : bool) (leftover : list event) (returned : list bool) : nat :=
+  if ok
   then (if forallb (fun b => b) returned && negb (match leftover with [] => true | _ => false end) then 1 else 0)
   else 2.
 
+Definition verdict (c : case) : nat :=
+  let '(mode, plan, sched, popped, leftover, returned) := c in
+  match mode with
+  | 2 =>
+      let w := frun (fun e => ev_eqb e (0, 0)) true sched (finit (plan_of plan)) in
+      let fin := map (ffinishedb w) (seq 0 (length plan)) in
+      agree_then (list_eqb evt_eqb (begun_by (fw_log w)) popped
+                  && list_eqb ev_eqb (fw_queue w) leftover
+                  && list_eqb Bool.eqb fin returned
+                  && bracketed (fw_log w)) leftover returned
+  | _ =>
+      let g := match mode with 0 => Line | _ => Await end in
+      let w := run g sched (init (plan_of plan)) in
+      let fin := map (finished w) (seq 0 (length plan)) in
+      agree_then (list_eqb evt_eqb (begun_by (w_log w)) popped
+                  && list_eqb ev_eqb (w_queue w) leftover
+                  && list_eqb Bool.eqb fin returned
+                  && bracketed (w_log w)) leftover returned
+  end.
+
 Definition mk6 (line : bool) (plan sched : list nat) (popped : list (event * nat)) (leftover : list event)
-  (returned : list bool) : case := (line, plan, sched, popped, leftover, returned).
+  (returned : list bool) : case := ((if line then 0 else 1), plan, sched, popped, leftover, returned).
+Definition mk6f (plan sched : list nat) (popped : list (event * nat)) (leftover : list event)
+  (returned : list bool) : case := (2, plan, sched, popped, leftover, returned).
